@@ -42,6 +42,15 @@ def run(ctx):
         for i in range(ctx.n(200)):
             g = gen.random_graph(rng, meta_p=0.4, maxdepth=2) if i % 3 else gen.consistent_graph(rng, max_nodes=6)[0]
             forced = None
+            late_ports = False
+            if i % 10 == 3:
+                # a graph built without ports that gets its Input / Output afterwards, through graph.nodes: the accessors
+                # then have something to report that the graph-level attributes do not yet reflect
+                sh = gen.shape(rng, rank=rng.randrange(1, 3))
+                g = {"type": "NIRGraph", "meta": None, "edges": [["in", "s"], ["s", "out"]],
+                     "nodes": [["s", gen.node_recipe(rng, "Scale", sh=sh, dtype="<f8", meta_p=0.0)]]}
+                late_ports = sh
+                forced = [rng.choice(["inputs", "outputs"]) for _ in range(3)] + ["to_dict"]
             if i % 10 == 7:
                 # a nested graph wired through dotted port names (the form tests/test_ir.py uses), types consistent
                 sh = gen.shape(rng, rank=rng.randrange(1, 3))
@@ -56,6 +65,10 @@ def run(ctx):
             case = {"op": "observers", "graph": g}
             try:
                 graph = impl_construct(g)
+                if late_ports:
+                    graph.nodes["in"] = nir.Input(np.array(late_ports))
+                    graph.nodes["out"] = nir.Output(np.array(late_ports))
+                    case["ports_added_after_construction"] = True
             except Exception:
                 ctx.count("construct_rejected"); continue
             if i % 3 == 0 and rng.random() < 0.6:
@@ -142,6 +155,34 @@ def run(ctx):
                                         {"site": "read", "what": "residue"}, observed=diff[:3])
                 except Exception:
                     ctx.count("second_rejected")
+        # reads of files holding arrays of a megabyte and more (sizes at which a reader may map instead of copy)
+        for j in range(ctx.n(3, 8)):
+            rows, cols = rng.choice([(600, 300), (1100, 130), (257, 1031)])
+            seed = rng.randrange(2 ** 31)
+            w = np.random.default_rng(seed).standard_normal((rows, cols))
+            graph = nir.NIRGraph(nodes={"in": nir.Input(np.array([cols])), "fc": nir.Affine(weight=w, bias=np.zeros(rows)),
+                                        "out": nir.Output(np.array([rows]))}, edges=[("in", "fc"), ("fc", "out")])
+            case = {"op": "large_read_pair", "weight_shape": [rows, cols], "seed": seed}
+            ctx.case(case); ctx.count("large_read_pairs")
+            p = os.path.join(tmpdir, "big.nir")
+            target = p if j % 2 else __import__("pathlib").Path(p)
+            nir.write(target, graph)
+            a, b = nir.read(target), nir.read(target)
+            A, B = compare.mutable_ids(a), compare.mutable_ids(b)
+            h0 = open(p, "rb").read()
+            sb = compare.snapshot(b)
+            shared = bool(set(A) & set(B)) or bool(compare.shares_memory(A, B))
+            try:
+                a.nodes["fc"].weight[...] = 1.0
+                a.nodes["fc"].bias[...] = 2.0
+            except Exception as e:  # noqa
+                ctx.violate(case, "a graph returned by read cannot be modified in place", {"site": "read", "what": "read-only"},
+                            observed=f"{type(e).__name__}: {e}")
+                continue
+            del a
+            if shared or compare.snapshot(b) != sb or open(p, "rb").read() != h0:
+                ctx.violate(case, "graphs returned by separate reads of a file with large arrays are not independent "
+                            "(of each other or of the file)", {"site": "read", "what": "alias-large"})
     finally:
         import shutil
         shutil.rmtree(tmpdir, ignore_errors=True)
